@@ -115,6 +115,7 @@ pub struct EncGen<'a, R: Rng> {
     pub budget: usize,
     /// set when a `Compact<()>`-like (zero byte) compact was produced: third-party decoders refuse it
     pub saw_unit_compact: bool,
+    pub steps: usize,
 }
 
 const BOUNDARIES: [u128; 12] =
@@ -171,6 +172,10 @@ impl<'a, R: Rng> EncGen<'a, R> {
     pub fn gen(&mut self, id: u32, depth: usize, out: &mut Vec<u8>) -> Result<(), String> {
         if depth > 60 {
             return Err("too deep".into());
+        }
+        self.steps += 1;
+        if self.steps > 50_000 {
+            return Err("step budget exhausted".into());
         }
         self.budget = self.budget.saturating_sub(1);
         let t = self.reg.resolve(id).ok_or_else(|| format!("missing id {id}"))?;
